@@ -826,8 +826,18 @@ def judge_ctor(ctx, spec, case, raised, obs, model):
 
 
 def replay(ctx, payload):
-    case = payload["case"]
     spec = SpecTables()
+    case = payload.get("case") or (payload.get("correspondence") or {}).get("case")
+    if case is None and ("ops" in payload or "lists" in payload):
+        case = payload                                       # a bare case, e.g. a corpus file
+    if case is None:
+        # a `no-failing-input-found` report about the theorems / the translator: re-establish it
+        print("theorems reported as not checking:", payload.get("theorems_not_checking"))
+        ok = translator_tie(ctx, spec)
+        print("translator status now:", ctx["ev"].extra.get("translator", {}).get("status"))
+        bad = (not ok) or bool(ctx["out"].violations)
+        print("REPRODUCED" if bad else "NOT-REPRODUCED")
+        return 1 if bad else 0
     if "lists" in case:
         raised, obs = impl_ctor(case)
         m = C.lean_batch([ctor_line(case)])[0]
